@@ -28,6 +28,16 @@ def run(tier, seed, args):
     wd = vlib.workdir("C05")
     exe = vlib.build_harness()
     ps = progs.c05_programs(seed, tier)
+    # foreign layouts from the TLA+ encoder (packets that complete no point, index/ignored packets, cuts inside values)
+    # incl. invalid-state values outside their documented set, which the real writer cannot produce
+    import c03, materialize
+    enc = [c for c in c03.encoder_cases(wd, False) if c["name"].startswith(("s4", "s1-"))]
+    if tier == "quick":
+        enc = [c for c in enc if c["name"].startswith("s4")][::2] + [c for c in enc if c["name"].startswith("s1-")][::9]
+    opts = [[True, True, False, True, True, True], [False, False, False, False, False, False], [True, True, True, True, False, False]]
+    for i, c in enumerate(enc):
+        img, scene = materialize.build_file([c], v=i % 6, guid=f"enc-{i}")
+        ps.append({"name": "enc:" + c["name"], "image_bytes": list(img), "steps": [{"op": "new"}, {"op": "pc", "pose_matrix": None}], "opts": opts})
     n, npts = run_simple(v, wd, exe, ps, "c05", ("C05",))
     log(f"[C05] {len(ps)} files, {n} iterations (option vectors x point clouds), {npts} points compared with the documented view")
     v.add(states=v.cov.get("trace_events", 0), transitions=v.cov.get("trace_events", 0), exhaustive=False,
